@@ -10,6 +10,10 @@ from pyvc.pvals import *
 from pyvc.symex import Res, is_val, APP, APP_RAISES, APP_EXC
 from pyvc.contracts import Contract, LoopSpec, register
 from .keyed_specs import *
+from . import keyed_specs
+from pyvc import contracts as _pc
+if keyed_specs.MODE not in _pc.MODE_HOOKS:
+    _pc.MODE_HOOKS.append(keyed_specs.MODE)
 
 
 # ---------------------------------------------------------------------------------------------
@@ -23,6 +27,7 @@ class KeyContract(Contract):
     qual = KB + ".key"
     raises = {"*": "exc_any"}
     pure_fn = True
+    verify_recv = KL
 
     def link_bound(self, eng, st, v, bound):
         """a reified bound method `l.key` used as somebody's key function computes l's keys"""
@@ -60,12 +65,13 @@ def defkey(eng, st, x):
     meta = z3.If(is_absent(iv), clsattr(eng.type_of(st, x), sid), iv)
     has_meta = z3.And(z3.Not(is_absent(meta)), eng.truthy(st, meta))
     mk = meta_key(eng, st, meta)
-    keyed = z3.And(has_meta, eng.truthy(st, mk))
+    keyed = z3.And(has_meta, z3.Not(is_absent(mk)), eng.truthy(st, mk))
+    broken = z3.And(has_meta, is_absent(mk))       # a metadata object without a `key` attribute
     kname = s_of(mk)
     kv = z3.If(is_ref(x), z3.Select(st.get("idict", a_of(x)), kname), ABSENT)
     kval = z3.If(is_absent(kv), clsattr(eng.type_of(st, x), kname), kv)
     return (z3.If(keyed, kval, x),
-            z3.If(keyed, is_absent(kval), z3.Not(hashable(x))))
+            z3.If(broken, True, z3.If(keyed, is_absent(kval), z3.Not(hashable(x)))))
 
 
 def meta_key(eng, st, meta):
@@ -458,7 +464,8 @@ def iter_hook(eng, st, v, fx):
         return None
     if eng.static_class(st, v) != "KeyedList":
         return None
-    n, el = view(st, v)
+    L = lst(st, v)
+    n, el = st.get("llen", L), st.get("lelem", L)
     p = PSeq(n, lambda s, k, el=el: z3.Select(el, k), "KeyedList view")
     p.arr = el
     eng.stats["assumed"].add("_collections_abc:Sequence.__iter__")
@@ -467,8 +474,8 @@ def iter_hook(eng, st, v, fx):
 
 def truthy_hook(eng, st, a, c):
     if "KeyedList" in CLS.ids:
-        L = a_of(z3.Select(st.get("idict", a), STR.sid("_list")))
-        return z3.If(c == CLS.cid("KeyedList"), st.get("llen", L) > 0, utruthy(a))
+        lv = z3.Select(st.get("idict", a), STR.sid("_list"))
+        return z3.If(z3.And(c == CLS.cid("KeyedList"), is_ref(lv)), st.get("llen", a_of(lv)) > 0, utruthy(a))
     return None
 
 
@@ -549,31 +556,24 @@ class Pop(KLBase):
 
 
 def iterated(c, v):
-    """the finite sequence obtained by iterating argument v during the call: (n, arr).
-    verify side: the plan the loop actually used; apply side: fresh, tied to the heap when v is a
-    built-in list/tuple (or a KeyedList)."""
-    if c.side == "verify":
-        plans = c.post.ghost.get("plans", ())
-        p = plans[-1][1]
-        return p.n, p.arr
-    key = ("iterated", v.sexpr() if is_val(v) else id(v))
-    if key in c.ghost:
-        return c.ghost[key]
-    n, arr = fresh("itn", I), fresh("itv", ArrIV)
-    st = c.pre
-    c.post.assume(n >= 0)
-    if is_val(v):
-        a = a_of(v)
-        cl = st.get("cls_of", a)
-        isl = z3.And(is_ref(v), z3.Or(cl == CLS.cid("list"), cl == CLS.cid("tuple")))
-        c.post.assume(z3.Implies(isl, z3.And(n == st.get("llen", a), arr == st.get("lelem", a))))
-        c.post.assume(z3.Implies(z3.Not(c.eng.truthy(st, v)), n == 0))
-        if "KeyedList" in CLS.ids:
-            isk = z3.And(is_ref(v), cl == KLIST())
-            vn, vel = view(st, v)
-            c.post.assume(z3.Implies(isk, z3.And(n == vn, arr == vel)))
-    c.ghost[key] = (n, arr)
+    """the finite sequence obtained by iterating argument v in the pre-state: (n, arr)"""
+    n, arr = seqof(c.pre, v)
+    if c.side == "verify" and is_val(v):
+        key = ("iterated", v.sexpr())
+        if key in c.ghost:
+            return c.ghost[key]
+        for src, p in reversed(c.post.ghost.get("iterplans", ())):
+            if is_val(src) and src.eq(v) and hasattr(p, "arr"):
+                c.lemma(c.post, "iter-link", z3.And(p.n == n, p.arr == arr))
+                c.ghost[key] = (p.n, p.arr)
+                return p.n, p.arr
     return n, arr
+
+
+def not_unordered(st, v):
+    """contract scope: the iterable handed in is not a dict/set (their iteration order is not modelled)"""
+    cl = st.get("cls_of", a_of(v))
+    return z3.Not(z3.And(is_ref(v), z3.Or(subcls(cl, CLS.cid("dict")), subcls(cl, CLS.cid("set")))))
 
 
 def dup_in(st, kf, n, arr, extra_has=None):
@@ -597,10 +597,19 @@ class Init(Contract):
     def setup(self, c):
         st = c.pre
         st.assume(z3.Not(has_args(CLS.val("KeyedList"))))
+        for g in exact_class_facts(st, c.sequence):
+            st.assume(g)
+
+    def items(self, c):
+        """`sequence or []`"""
+        n, arr = iterated(c, c.sequence)
+        return z3.If(c.eng.truthy(c.pre, c.sequence), n, 0), arr
 
     def pre(self, c):
         a = a_of(c.self)
-        return [("self", z3.And(is_ref(c.self), c.pre.get("cls_of", a) == KLIST()))]
+        return [("self", z3.And(is_ref(c.self), c.pre.get("cls_of", a) == KLIST())),
+                ("ordered", not_unordered(c.pre, c.sequence)),
+                ("new", c.sequence != c.self)]
 
     def modifies(self, c):
         return [a_of(c.self)]
@@ -608,7 +617,7 @@ class Init(Contract):
     def post(self, c):
         st = c.post
         key = c.key
-        n, arr = iterated(c, c.sequence)
+        n, arr = self.items(c)
         n2, el2 = view(st, c.self)
         if c.side == "verify":
             # ghost witness: position of each key = the index of the item that carries it (from the loop invariant)
@@ -622,19 +631,19 @@ class Init(Contract):
 
     def exc_dup(self, c):
         key = c.key
-        n, arr = iterated(c, c.sequence)
+        n, arr = self.items(c)
         return [("dup", dup_in(c.post, key, n, arr))]
 
     def exc_type(self, c):
         key = c.key
-        n, arr = iterated(c, c.sequence)
+        n, arr = self.items(c)
         i = z3.Int("i!et")
         return [("why", z3.Exists([i], z3.And(i >= 0, i < n, z3.Or(
             kappa_raises(key, z3.Select(arr, i)), z3.Not(hashable(kappa(key, z3.Select(arr, i))))))))]
 
     def exc_other(self, c):
         key = c.key
-        n, arr = iterated(c, c.sequence)
+        n, arr = self.items(c)
         i = z3.Int("i!eo")
         return [("keyfn", z3.Exists([i], z3.And(i >= 0, i < n, kappa_raises(key, z3.Select(arr, i)))))]
 
@@ -654,3 +663,359 @@ class Init(Contract):
         self_ = lc.args["self"]
         return [lst(pre, self_), dct(pre, self_)]
     loops = {0: LoopSpec(inv0, mod0)}
+
+
+def exact_class_facts(st, v):
+    """A-LOOKUP: KeyedList / list are not subclassed by the objects handed to the container"""
+    c = st.get("cls_of", a_of(v))
+    out = [z3.Implies(subcls(c, CLS.cid("list")), c == CLS.cid("list")),
+           z3.Implies(subcls(c, CLS.cid("tuple")), c == CLS.cid("tuple"))]
+    if "KeyedList" in CLS.ids:
+        out.append(z3.Implies(subcls(c, KLIST()), c == KLIST()))
+    return out
+
+
+def list_eq(n1, e1, n2, e2):
+    j = z3.Int("j!le")
+    return z3.And(n1 == n2, z3.ForAll([j], z3.Implies(z3.And(j >= 0, j < n1),
+                                                      kn(z3.Select(e1, j)) == kn(z3.Select(e2, j)))))
+
+
+def list_eq_hook(eng, st, a, b, fx):
+    """list == list: same length and pairwise equal elements"""
+    if eng.static_class(st, a) == "list" and eng.static_class(st, b) == "list":
+        A, Bq = a_of(a), a_of(b)
+        t = fresh("leq", B)
+        st.assume(t == list_eq(st.get("llen", A), st.get("lelem", A), st.get("llen", Bq), st.get("lelem", Bq)))
+        return [Res("ok", st, vbool(t))]
+    return None
+
+
+@register
+class Eq(KLBase):
+    """l == other: plain-list equality of the views (KeyedList or list operand), else NotImplemented"""
+    qual = KL + ".__eq__"
+
+    def modifies(self, c):
+        return []
+
+    def setup(self, c):
+        st = c.pre
+        for g in exact_class_facts(st, c.other):
+            st.assume(g)
+        o = c.other
+        isk = z3.And(is_ref(o), st.get("cls_of", a_of(o)) == KLIST())
+        for g in wf_list(st, o):
+            st.assume(z3.Implies(isk, g))
+
+    def post(self, c):
+        st = c.pre
+        o = c.other
+        n, el = view(st, c.self)
+        co = st.get("cls_of", a_of(o))
+        isk = z3.And(is_ref(o), co == KLIST())
+        isl = z3.And(is_ref(o), co == CLS.cid("list"))
+        on, oel = view(st, o)
+        return [("klist", z3.Implies(isk, z3.And(is_bool(c.res), b_of(c.res) == list_eq(n, el, on, oel)))),
+                ("list", z3.Implies(isl, z3.And(is_bool(c.res), b_of(c.res) == list_eq(
+                    n, el, st.get("llen", a_of(o)), st.get("lelem", a_of(o)))))),
+                ("other", z3.Implies(z3.Not(z3.Or(isk, isl)), c.res == NOTIMPL))]
+
+
+class ConcatBase(KLBase):
+    """l + other / other + l: a new KeyedList with the same key function holding the concatenation
+    (duplicate key -> ValueError); operands untouched; non-sequences -> NotImplemented."""
+    raises = {"ValueError": "exc_dup", "TypeError": "exc_type", "*": "exc_other"}
+    left = True
+
+    def modifies(self, c):
+        return []
+
+    def setup(self, c):
+        for g in exact_class_facts(c.pre, c.other):
+            c.pre.assume(g)
+        c.pre.assume(z3.Not(has_args(CLS.val("KeyedList"))))
+
+    def pre(self, c):
+        return KLBase.pre(self, c) + [("ordered", not_unordered(c.pre, c.other))]
+
+    def is_seq(self, c):
+        return c.eng.models.isinstance_(c.eng, c.pre, c.other, c.eng.pclass("Sequence", c.eng.class_info("Sequence")))
+
+    def parts(self, c):
+        n, el = view(c.pre, c.self)
+        m, arr = iterated(c, c.other)
+        if self.left:
+            return n + m, (lambda j: z3.If(j < n, z3.Select(el, j), z3.Select(arr, j - n))), m, arr
+        return n + m, (lambda j: z3.If(j < m, z3.Select(arr, j), z3.Select(el, j - m))), m, arr
+
+    def post(self, c):
+        seq = self.is_seq(c)
+        out = [("notseq", z3.Implies(z3.Not(seq), c.res == NOTIMPL))]
+        tot, f, m, arr = self.parts(c)
+        for nm, g in new_klist(c, c.res, tot, f):
+            out.append(("concat." + nm, z3.Implies(seq, g)))
+        return out + self.unchanged(c)
+
+    def exc_dup(self, c):
+        tot, f, m, arr = self.parts(c)
+        has = c.pre.get("dhas", dct(c.pre, c.self))
+        return [("dup", dup_in(c.pre, keyfn(c.pre, c.self), m, arr, has))] + self.unchanged(c)
+
+    def exc_type(self, c):
+        tot, f, m, arr = self.parts(c)
+        kf = keyfn(c.pre, c.self)
+        i = z3.Int("i!ct")
+        return [("why", z3.Exists([i], z3.And(i >= 0, i < m, z3.Or(
+            kappa_raises(kf, z3.Select(arr, i)), z3.Not(hashable(kappa(kf, z3.Select(arr, i))))))))] + self.unchanged(c)
+
+    def exc_other(self, c):
+        tot, f, m, arr = self.parts(c)
+        kf = keyfn(c.pre, c.self)
+        i = z3.Int("i!co")
+        return [("keyfn", z3.Exists([i], z3.And(i >= 0, i < m, kappa_raises(kf, z3.Select(arr, i)))))] + self.unchanged(c)
+
+
+@register
+class Add(ConcatBase):
+    qual = KL + ".__add__"
+    left = True
+
+
+@register
+class Radd(ConcatBase):
+    qual = KL + ".__radd__"
+    left = False
+
+
+@register
+class Reverse(KLBase):
+    qual = KL + ".reverse"
+
+    def post(self, c):
+        n, el = view(c.pre, c.self)
+        n2, el2 = view(c.post, c.self)
+        w = wit(c.pre, c.self)
+        set_wit(c.post, c.self, lambda k: n - 1 - z3.Select(w, k))
+        return self.wf_post(c) + [("model", seq_eq(n2, el2, n, lambda j: z3.Select(el, n - 1 - j)))]
+
+
+@register
+class Extend(KLBase):
+    """l.extend(items) == list.extend; a duplicate key or ill-typed item anywhere -> exception and the
+    container is exactly as before (all-or-nothing)."""
+    qual = KL + ".extend"
+    raises = {"ValueError": "exc_dup", "TypeError": "exc_type", "*": "exc_other"}
+
+    def setup(self, c):
+        for g in exact_class_facts(c.pre, c.values):
+            c.pre.assume(g)
+
+    def pre(self, c):
+        return KLBase.pre(self, c) + [("ordered", not_unordered(c.pre, c.values))]
+
+    def post(self, c):
+        n, el = view(c.pre, c.self)
+        n2, el2 = view(c.post, c.self)
+        m, arr = iterated(c, c.values)
+        if c.side == "verify":
+            # ghost: a new key's witness is n + (its position among the new items), kept by the loop ghost
+            w = wit(c.pre, c.self)
+            has = c.pre.get("dhas", dct(c.pre, c.self))
+            nk = c.post.ghost.get("extend_newkeys")
+            if nk is not None:
+                kq = z3.Const("k!dj", Val)
+                c.lemma(c.post, "disjoint", z3.ForAll([kq], z3.Not(z3.And(z3.Select(has, kq),
+                                                                       z3.Select(c.post.get("dhas", nk), kq)))))
+                wn = c.post.get("gwit", nk)
+                set_wit(c.post, c.self, lambda k: z3.If(z3.Select(has, k), z3.Select(w, k), n + z3.Select(wn, k)))
+        return self.wf_post(c) + [("model", seq_eq(n2, el2, n + m, lambda j: z3.If(j < n, z3.Select(el, j),
+                                                                                  z3.Select(arr, j - n))))]
+
+    def exc_dup(self, c):
+        m, arr = iterated(c, c.values)
+        has = c.pre.get("dhas", dct(c.pre, c.self))
+        return self.unchanged(c) + [("dup", dup_in(c.pre, keyfn(c.pre, c.self), m, arr, has))]
+
+    def exc_type(self, c):
+        m, arr = iterated(c, c.values)
+        kf = keyfn(c.pre, c.self)
+        i = z3.Int("i!xt")
+        x = z3.Select(arr, i)
+        return self.unchanged(c) + [("why", z3.Exists([i], z3.And(i >= 0, i < m, z3.Or(
+            kappa_raises(kf, x), z3.Not(hashable(kappa(kf, x))), z3.Not(item_ok(c.pre, c.self, x)),
+            z3.Not(key_ok(c.pre, c.self, kappa(kf, x)))))))]
+
+    def exc_other(self, c):
+        m, arr = iterated(c, c.values)
+        kf = keyfn(c.pre, c.self)
+        i = z3.Int("i!xo")
+        return self.unchanged(c) + [("keyfn", z3.Exists([i], z3.And(i >= 0, i < m, kappa_raises(kf, z3.Select(arr, i)))))]
+
+    def inv0(lc, st, i):
+        self_ = lc.args["self"]
+        p = lc.plan
+        pre = lc.entry.pre
+        kf = keyfn(pre, self_)
+        ni, nk = st.env["new_items"], st.env["new_keys"]
+        A, Dn = a_of(ni), a_of(nk)
+        has0 = pre.get("dhas", dct(pre, self_))
+        hasn, dvn, wn = (named(st, st.get("dhas", Dn), "hasn"), named(st, st.get("dval", Dn), "dvn"),
+                         named(st, st.get("gwit", Dn), "wn"))
+        j, j2 = z3.Int("j!xi"), z3.Int("j2!xi")
+        k = z3.Const("k!xi", Val)
+        x = z3.Select(p.arr, j)
+        kx = kn(kappa(kf, x))
+        st.ghost = dict(st.ghost)
+        st.ghost["extend_newkeys"] = Dn
+        return [
+            ("locals", z3.And(is_ref(ni), is_ref(nk), st.get("cls_of", A) == CLS.cid("list"),
+                              st.get("cls_of", Dn) == CLS.cid("dict"), A >= pre.alloc, Dn >= pre.alloc, A != Dn,
+                              ni == lc.pre.env["new_items"], nk == lc.pre.env["new_keys"])),
+            ("items", seq_eq(st.get("llen", A), st.get("lelem", A), i, lambda q: z3.Select(p.arr, q))),
+            ("size", st.get("dsize", Dn) == i),
+            ("staged", z3.ForAll([j], z3.Implies(z3.And(j >= 0, j < i), z3.And(
+                z3.Not(is_absent(x)), z3.Not(kappa_raises(kf, x)), hashable(kappa(kf, x)), z3.Select(hasn, kx),
+                z3.Select(dvn, kx) == x, z3.Not(z3.Select(has0, kx)),
+                item_ok(pre, self_, x), key_ok(pre, self_, kappa(kf, x)))), patterns=[x])),
+            ("distinct", z3.ForAll([j, j2], z3.Implies(z3.And(j >= 0, j < j2, j2 < i),
+                                                       kx != kn(kappa(kf, z3.Select(p.arr, j2)))))),
+            ("onlystaged", z3.ForAll([k], z3.Implies(z3.Select(hasn, k), z3.And(
+                z3.Select(wn, k) >= 0, z3.Select(wn, k) < i,
+                kn(kappa(kf, z3.Select(p.arr, z3.Select(wn, k)))) == k)), patterns=[z3.Select(hasn, k)])),
+        ] + [("self.%d" % q, g) for q, g in enumerate(unchanged_list(pre, st, self_))]
+
+    def mod0(lc, pre):
+        return [a_of(pre.env["new_items"]), a_of(pre.env["new_keys"])]
+
+    def ghost0(lc, st, i):
+        self_ = lc.args["self"]
+        kf = keyfn(lc.entry.pre, self_)
+        Dn = a_of(st.env["new_keys"])
+        w = st.get("gwit", Dn)
+        newk = kn(kappa(kf, lc.plan.at(st, i)))
+        k = z3.Const("k!xg", Val)
+        st.put("gwit", Dn, z3.Lambda([k], z3.If(k == newk, i, z3.Select(w, k))))
+    loops = {0: LoopSpec(inv0, mod0, ghost_step=ghost0)}
+
+
+@register
+class Iadd(KLBase):
+    qual = "_collections_abc:MutableSequence.__iadd__"
+    raises = Extend.raises
+    setup = Extend.setup
+    pre = Extend.pre
+
+    def post(self, c):
+        n, el = view(c.pre, c.self)
+        n2, el2 = view(c.post, c.self)
+        m, arr = iterated(c, c.values)
+        return self.wf_post(c) + [("self", c.res == c.self),
+                                  ("model", seq_eq(n2, el2, n + m, lambda j: z3.If(j < n, z3.Select(el, j),
+                                                                                  z3.Select(arr, j - n))))]
+    exc_dup = Extend.exc_dup
+    exc_type = Extend.exc_type
+    exc_other = Extend.exc_other
+
+
+@register
+class Index(KLBase):
+    """Sequence.index(value) as inherited: first position of an identical-or-equal item (from 0)"""
+    qual = "_collections_abc:Sequence.index"
+    raises = {"ValueError": "exc_missing"}
+
+    def modifies(self, c):
+        return []
+
+    def pre(self, c):
+        return KLBase.pre(self, c) + [("defaults", z3.And(c.start == vint(0), is_none(c.stop)))]
+
+    def post(self, c):
+        n, el = view(c.pre, c.self)
+        j = z3.Int("j!ix")
+        i = i_of(c.res)
+        return [("int", is_int(c.res)), ("range", z3.And(i >= 0, i < n)),
+                ("hit", kn(z3.Select(el, i)) == kn(c.value)),
+                ("first", z3.ForAll([j], z3.Implies(z3.And(j >= 0, j < i), kn(z3.Select(el, j)) != kn(c.value))))]
+
+    def exc_missing(self, c):
+        n, el = view(c.pre, c.self)
+        j = z3.Int("j!ixm")
+        return [("none", z3.ForAll([j], z3.Implies(z3.And(j >= 0, j < n), kn(z3.Select(el, j)) != kn(c.value))))]
+
+    def inv0(lc, st, k):
+        self_, value = lc.args["self"], lc.args["value"]
+        n, el = view(lc.pre, self_)
+        i = st.env["i"]
+        j = z3.Int("j!ixi")
+        return [("i", z3.And(is_int(i), i_of(i) >= 0, i_of(i) <= n)),
+                ("stop", st.env["stop"] == lc.pre.env["stop"]),
+                ("scanned", z3.ForAll([j], z3.Implies(z3.And(j >= 0, j < i_of(i)), kn(z3.Select(el, j)) != kn(value))))]
+
+    def var0(lc, st):
+        self_ = lc.args["self"]
+        n, el = view(lc.pre, self_)
+        return n - i_of(st.env["i"]) + 1
+    loops = {0: LoopSpec(inv0, variant=var0)}
+
+
+@register
+class Remove(KLBase):
+    """l.remove(x): delete the first identical-or-equal item, ValueError if none"""
+    qual = "_collections_abc:MutableSequence.remove"
+    raises = {"ValueError": "exc_missing"}
+
+    def post(self, c):
+        n, el = view(c.pre, c.self)
+        n2, el2 = view(c.post, c.self)
+        w = wit(c.pre, c.self)
+        p = fresh("rmpos", I) if c.side == "apply" else c.post.ghost.get("remove_pos")
+        j = z3.Int("j!rm")
+        if c.side == "verify":
+            # the position is the one returned by index(); recover it from the length change witness
+            p = z3.Int("rm!p")
+        first = z3.And(p >= 0, p < n, kn(z3.Select(el, p)) == kn(c.value),
+                       z3.ForAll([j], z3.Implies(z3.And(j >= 0, j < p), kn(z3.Select(el, j)) != kn(c.value))))
+        if c.side == "apply":
+            set_wit(c.post, c.self, lambda k: z3.If(z3.Select(w, k) < p, z3.Select(w, k), z3.Select(w, k) - 1))
+            return self.wf_post(c) + [("first", first),
+                                      ("model", seq_eq(n2, el2, n - 1, lambda q: z3.If(q < p, z3.Select(el, q), z3.Select(el, q + 1))))]
+        goal = z3.Exists([p], z3.And(first, seq_eq(n2, el2, n - 1, lambda q: z3.If(q < p, z3.Select(el, q), z3.Select(el, q + 1)))))
+        return self.wf_post(c) + [("model", goal)]
+
+    exc_missing = Index.exc_missing
+
+    def unchanged_exc(self, c):
+        return self.unchanged(c)
+
+
+@register
+class Clear(KLBase):
+    qual = "_collections_abc:MutableSequence.clear"
+
+    def post(self, c):
+        n2, el2 = view(c.post, c.self)
+        return self.wf_post(c) + [("empty", n2 == 0)]
+
+    def inv0(lc, st, k):
+        self_ = lc.args["self"]
+        pre = lc.entry.pre
+        return [("wf.%d" % q, g) for q, g in enumerate(wf_list(st, self_))] + \
+               [("config.%d" % q, g) for q, g in enumerate(same_config(pre, st, self_))] + \
+               [("fields", z3.And(lst(st, self_) == lst(pre, self_), dct(st, self_) == dct(pre, self_)))]
+
+    def mod0(lc, pre):
+        self_ = lc.args["self"]
+        return [lst(pre, self_), dct(pre, self_)]
+
+    def var0(lc, st):
+        return view(st, lc.args["self"])[0]
+    loops = {0: LoopSpec(inv0, mod0, variant=var0)}
+
+
+_old_install2 = install_hooks
+
+
+def install_hooks(models):
+    _old_install2(models)
+    models.eq_hooks.append(list_eq_hook)
